@@ -552,7 +552,44 @@ def _excluded(conj: ast.AST, var: str):
     return None
 
 
-def _key_class(key: ast.AST | None, fn: ast.AST):
+MEMBER = "<not a name of the master table>"
+
+
+def _master_membership(pm, cg: CallGraph, fi, conj: ast.AST, var: str, depth: int = 2) -> bool:
+    """the conjunct keeps exactly the names of the master colour table: `x in self._name_to_type` or a repo predicate
+    whose single return is such a test of its argument"""
+    if isinstance(conj, ast.Compare) and len(conj.ops) == 1 and isinstance(conj.ops[0], ast.In) and isinstance(conj.left, ast.Name) \
+            and conj.left.id == var and re.fullmatch(r"(self|cls|color_service)\._name_to_(type|rtf|rgb)(\.keys\(\))?", unparse(conj.comparators[0])):
+        return True
+    if isinstance(conj, ast.Call) and len(conj.args) == 1 and not conj.keywords and isinstance(conj.args[0], ast.Name) and conj.args[0].id == var and depth > 0:
+        before = id(conj) in cg.imprecise
+        cands = cg.resolve_call(fi, conj)
+        if len(cands) == 1 and not before and id(conj) not in cg.imprecise:
+            g = cands[0]
+            rets = [r.value for r in walk_no_nested(g.node) if isinstance(r, ast.Return) and r.value is not None]
+            ps = [x.arg for x in g.node.args.args if x.arg not in ("self", "cls")]
+            if len(rets) == 1 and len(ps) == 1:
+                return _master_membership(pm, cg, g, rets[0], ps[0], depth - 1)
+    return False
+
+
+def _expand_membership(pm, pipes: list[dict]) -> None:
+    """replace the membership token by the constants (of those any of the compared filters mentions, and '') that are not
+    names of the master table; membership in the table also stands for validation (invalid names take no slot)"""
+    if not any(p["excl"] is not None and MEMBER in p["excl"] for p in pipes):
+        return
+    tbl = const_name(pm, "rtflite.dictionary.color_table", "name_to_type")
+    universe = {""} | {c for p in pipes if p["excl"] is not None for c in p["excl"] if c != MEMBER}
+    for p in pipes:
+        if p["excl"] is not None and MEMBER in p["excl"]:
+            if tbl is NOC:
+                p["excl"] = None
+                continue
+            p["excl"] = (p["excl"] - {MEMBER}) | {u for u in universe if u not in tbl}
+            p["validate"] = True
+
+
+def _key_class(key: ast.AST | None, fn: ast.AST, pm=None, cls: str | None = None):
     """None (natural order) | 'master' (ordered by the master colour index) | ('other', text)"""
     if key is None:
         return None
@@ -579,6 +616,15 @@ def _key_class(key: ast.AST | None, fn: ast.AST):
             return "master"
         return ("other", txt)
     txt = unparse(key)
+    if pm is not None and cls and isinstance(key, ast.Attribute) and isinstance(key.value, ast.Name) and key.value.id in ("self", "cls", cls):
+        # a method used as the key: its single return decides
+        m = pm.find_method(cls, key.attr)
+        if m is not None:
+            rets = [r.value for r in walk_no_nested(m.node) if isinstance(r, ast.Return) and r.value is not None]
+            ps = [x.arg for x in m.node.args.args if x.arg not in ("self", "cls")]
+            if len(rets) == 1 and len(ps) == 1:
+                lam = ast.Lambda(args=ast.arguments(posonlyargs=[], args=[ast.arg(arg=ps[0])], kwonlyargs=[], kw_defaults=[], defaults=[]), body=rets[0])
+                return _key_class(lam, m.node)
     if re.fullmatch(r"(self|cls)\._name_to_type\.(__getitem__|get)", txt) or re.fullmatch(r"(self|cls)\.get_color_index", txt):
         return "master"
     return ("other", txt)
@@ -610,6 +656,15 @@ def _describe(pm, cg: CallGraph, fi, e: ast.AST, depth: int = 3) -> dict:
         if e.id not in params and len(real) == 1 and not (isinstance(real[0], ast.Constant)) and depth > 0:
             # several assignments of which all but one are empty literals (`x = []` on the early-exit arm)
             merge(_describe(pm, cg, fi, real[0], depth - 1))
+            for c in walk_no_nested(fi.node):
+                # the list is sorted in place afterwards
+                if isinstance(c, ast.Call) and isinstance(c.func, ast.Attribute) and c.func.attr == "sort" and isinstance(c.func.value, ast.Name) \
+                        and c.func.value.id == e.id and not d["sorted"]:
+                    kc = _key_class(next((k.value for k in c.keywords if k.arg == "key"), None), fi.node, pm, fi.cls)
+                    rev = next((k.value for k in c.keywords if k.arg == "reverse"), None)
+                    if rev is not None and not (isinstance(rev, ast.Constant) and rev.value is False):
+                        kc = ("other", f"{kc} reversed")
+                    d["sorted"], d["key"] = True, kc
             return d
         d["src"] = e.id
         return d
@@ -620,6 +675,8 @@ def _describe(pm, cg: CallGraph, fi, e: ast.AST, depth: int = 3) -> dict:
         for i in g.ifs:
             for c in _conjuncts(i):
                 x = _excluded(c, g.target.id)
+                if x is None and _master_membership(pm, cg, fi, c, g.target.id):
+                    x = {MEMBER}
                 if x is None or d["excl"] is None:
                     d["excl"] = None
                 else:
@@ -630,7 +687,7 @@ def _describe(pm, cg: CallGraph, fi, e: ast.AST, depth: int = 3) -> dict:
         if dotted(e.func) == "sorted" and e.args:
             merge(_describe(pm, cg, fi, e.args[0], depth))
             rev = next((k.value for k in e.keywords if k.arg == "reverse"), None)
-            kc = _key_class(next((k.value for k in e.keywords if k.arg == "key"), None), fi.node)
+            kc = _key_class(next((k.value for k in e.keywords if k.arg == "key"), None), fi.node, pm, fi.cls)
             if rev is not None and not (isinstance(rev, ast.Constant) and rev.value is False):
                 kc = ("other", f"{kc} reversed")
             d["sorted"], d["key"] = True, kc
@@ -674,7 +731,7 @@ def _dense_pipelines(pm, cg: CallGraph, fi) -> list[dict]:
         if isinstance(n.func, ast.Attribute) and n.func.attr == "sort" and not n.args and isinstance(n.func.value, ast.Name):
             # in-place sort of a local list
             d = _describe(pm, cg, fi, n.func.value)
-            d["sorted"], d["key"] = True, _key_class(next((k.value for k in n.keywords if k.arg == "key"), None), fi.node)
+            d["sorted"], d["key"] = True, _key_class(next((k.value for k in n.keywords if k.arg == "key"), None), fi.node, pm, fi.cls)
             names = [n.func.value.id]
         else:
             d = _describe(pm, cg, fi, n)
@@ -686,6 +743,81 @@ def _dense_pipelines(pm, cg: CallGraph, fi) -> list[dict]:
             covered.add(id(x))
         out.append({"node": n, "excl": d["excl"], "validate": d["validate"], "key": d["key"], "names": names})
     return out
+
+
+def _context_index_maps(pm, cg: CallGraph, cc_state_fn) -> list[dict]:
+    """returns of the lookup that read a mapping out of a module-level ContextVar (`CV.get()` ... `.get(color, 0)` / `[color]`):
+    the value flows from every `CV.set(E)` in the package; E is followed (conditional expressions, repo helpers) to a dict
+    comprehension `{name: pos for pos, name in enumerate(L, start)}`, i.e. position in L + start"""
+    from ..astmatch import resolve
+    idx = cc_state_fn
+    out = []
+    seen = set()
+    for r in walk_no_nested(idx.node):
+        if not (isinstance(r, ast.Return) and r.value is not None):
+            continue
+        v = resolve(r.value, idx.node)
+        for x in ast.walk(v):
+            cvget = None
+            if isinstance(x, ast.Call) and isinstance(x.func, ast.Attribute) and x.func.attr == "get" and x.args:
+                cvget = x.func.value
+            elif isinstance(x, ast.Subscript):
+                cvget = x.value
+            if not (isinstance(cvget, ast.Call) and isinstance(cvget.func, ast.Attribute) and cvget.func.attr == "get" and isinstance(cvget.func.value, ast.Name)):
+                continue
+            var = cvget.func.value.id
+            rr = pm.resolve(idx.module, var)
+            if not (rr and rr[0] == "value" and isinstance(rr[1][1], ast.Call) and dotted(rr[1][1].func).split(".")[-1] == "ContextVar") or var in seen:
+                continue
+            seen.add(var)
+            writers = []
+            for f in pm.iter_funcs():
+                if f.module != rr[1][0].name:
+                    continue
+                for c in walk_no_nested(f.node):
+                    if isinstance(c, ast.Call) and isinstance(c.func, ast.Attribute) and c.func.attr == "set" and isinstance(c.func.value, ast.Name) \
+                            and c.func.value.id == var and c.args:
+                        alts = [c.args[0]]
+                        while any(isinstance(a, ast.IfExp) for a in alts):
+                            alts = [b for a in alts for b in ((a.body, a.orelse) if isinstance(a, ast.IfExp) else (a,))]
+                        writers += [(f, a) for a in alts if not _is_none(a)]
+            if not writers:
+                out.append({"gap": f"{idx.short} reads a mapping from {var} but no writer of it could be found"})
+            for f, e in writers:
+                out.append(_index_map(pm, cg, f, e, var))
+    return out
+
+
+def _index_map(pm, cg: CallGraph, f, e: ast.AST, var: str, depth: int = 2) -> dict:
+    from ..astmatch import resolve
+    e = resolve(e, f.node) if not isinstance(e, ast.Call) else e
+    if isinstance(e, ast.Call) and depth > 0 and dotted(e.func) not in ("dict",):
+        before = id(e) in cg.imprecise
+        cands = cg.resolve_call(f, e)
+        if len(cands) == 1 and not before and id(e) not in cg.imprecise:
+            g = cands[0]
+            rets = [r.value for r in walk_no_nested(g.node) if isinstance(r, ast.Return) and r.value is not None]
+            if len(rets) == 1:
+                return _index_map(pm, cg, g, rets[0], var, depth - 1)
+    if isinstance(e, ast.Call) and dotted(e.func) == "dict" and len(e.args) == 1 and isinstance(e.args[0], (ast.GeneratorExp, ast.ListComp)) \
+            and isinstance(e.args[0].elt, ast.Tuple) and len(e.args[0].elt.elts) == 2:
+        comp = e.args[0]
+        e = ast.DictComp(key=comp.elt.elts[0], value=comp.elt.elts[1], generators=comp.generators)
+    if isinstance(e, ast.DictComp) and len(e.generators) == 1 and not e.generators[0].ifs:
+        g = e.generators[0]
+        it = g.iter
+        if isinstance(it, ast.Call) and dotted(it.func) == "enumerate" and it.args and isinstance(g.target, ast.Tuple) and len(g.target.elts) == 2 \
+                and all(isinstance(t, ast.Name) for t in g.target.elts) and isinstance(e.key, ast.Name) and e.key.id == g.target.elts[1].id:
+            start = it.args[1] if len(it.args) > 1 else next((k.value for k in it.keywords if k.arg == "start"), ast.Constant(value=0))
+            from ..linform import linform
+            lf = linform(e.value)
+            pos = g.target.elts[0].id
+            if isinstance(start, ast.Constant) and isinstance(start.value, int) and set(lf) <= {pos, ""} and lf.get(pos) == 1:
+                d = _describe(pm, cg, f, it.args[0])
+                if d["sorted"]:
+                    return {"var": var, "where": f.where(e), "offset": start.value + int(lf.get("", 0)),
+                            "pipe": {"node": e, "excl": d["excl"], "validate": d["validate"], "key": d["key"], "names": []}}
+    return {"gap": f"{f.short}: the mapping stored in {var} (`{unparse(e)[:60]}`) could not be related to a position in a sorted colour list"}
 
 
 def _show_pipe(p: dict) -> str:
@@ -726,6 +858,8 @@ def r12_2(ctx: Ctx, cg: CallGraph) -> None:
         ctx.gap("R12.2", f"the filter/validate/sort pipeline could not be re-identified ({len(pgs)} in {gen.short}, {len(pis)} in {idx.short})")
         return
     pg, pi = pgs[0], pis[0]
+    ctx_maps = _context_index_maps(pm, cg, cc_state_fn=idx)
+    _expand_membership(pm, [pg, pi] + [m["pipe"] for m in ctx_maps if m.get("pipe")])
     ctx.instance("R12.2", gen.where(), "table pipeline: " + _show_pipe(pg))
     ctx.instance("R12.2", idx.where(), "index pipeline: " + _show_pipe(pi))
     understood = True
@@ -741,6 +875,22 @@ def r12_2(ctx: Ctx, cg: CallGraph) -> None:
     if understood and (pg["excl"], pg["validate"], pg["key"]) != (pi["excl"], pi["validate"], pi["key"]):
         ctx.violation("R12.2", "ColorService", f"pipelines differ: {_show_pipe(pg)} vs {_show_pipe(pi)}", idx.where(),
                       f"colour table and colour index are computed by different pipelines: table {_show_pipe(pg)}, index {_show_pipe(pi)}")
+    # ---- a second index path: a position map precomputed into a ContextVar and read back by the lookup
+    for m in ctx_maps:
+        if m.get("gap"):
+            ctx.gap("R12.2", m["gap"])
+            continue
+        mp = m["pipe"]
+        ctx.instance("R12.2", m["where"], f"index map held in {m['var']}: position + {m['offset']} in a list with " + _show_pipe(mp))
+        if m["offset"] != 1:
+            ctx.violation("R12.2", idx.short, f"index map offset {m['offset']}", m["where"], f"the precomputed index map numbers the sorted colours from {m['offset']}, the table's first colour entry is number 1")
+        if mp["excl"] is None or mp["key"] not in (None, "master"):
+            ctx.gap("R12.2", f"the pipeline behind the index map in {m['var']} is not of a recognised form")
+        elif mp["key"] is None:
+            ctx.violation("R12.2", idx.short, "index map sort key None", m["where"], "the precomputed index map is not ordered by the master index")
+        elif understood and (pg["excl"], pg["validate"], pg["key"]) != (mp["excl"], mp["validate"], mp["key"]):
+            ctx.violation("R12.2", "ColorService", f"pipelines differ: {_show_pipe(pg)} vs index map {_show_pipe(mp)}", m["where"],
+                          f"colour table and the precomputed colour index map are computed by different pipelines: table {_show_pipe(pg)}, index map {_show_pipe(mp)}")
     # ---- table: one entry per sorted colour, unconditionally, after a single leading default entry
     S = set(pg["names"])
     asg = assignments(gen.node)
@@ -829,6 +979,22 @@ def r12_2(ctx: Ctx, cg: CallGraph) -> None:
                               f"the dense colour table is built from `{c[1]}`: not one entry per sorted colour, while the index counts one position per colour")
             elif "_name_to_rtf" not in unparse(c[1]) and "rtf_code" not in unparse(c[1]):
                 ctx.gap("R12.2", f"{gen.short}: table entry `{unparse(c[1])[:80]}` is not recognised as the master RTF definition of the colour")
+    if consumers == 0:
+        # entries built by a comprehension bound to a name / spliced into the joined list
+        for x in walk_no_nested(gen.node):
+            if isinstance(x, (ast.ListComp, ast.GeneratorExp)) and not isinstance(x.elt, ast.Name):
+                c = classify(x)
+                if c is None:
+                    continue
+                consumers += 1
+                ctx.instance("R12.2", gen.where(x), f"dense table entries by comprehension: {c[0]}")
+                if c[0] == "unknown":
+                    ctx.gap("R12.2", f"{gen.short}: table entries are built from `{c[1]}`, a derivative of the sorted colours that is not modelled")
+                elif c[0] in ("derived", "filtered"):
+                    ctx.violation("R12.2", gen.short, "conditional table entry" if c[0] == "filtered" else "dense loop", gen.where(x),
+                                  f"the dense colour table is built from `{c[1]}`: not one entry per sorted colour, while the index counts one position per colour")
+                elif "_name_to_rtf" not in unparse(c[1]) and "rtf_code" not in unparse(c[1]):
+                    ctx.gap("R12.2", f"{gen.short}: table entry `{unparse(c[1])[:80]}` is not recognised as the master RTF definition of the colour")
     if consumers == 0:
         ctx.gap("R12.2", f"{gen.short}: no loop or comprehension turning the sorted colours into table entries could be re-identified")
     for nm in sorted(accs or {"rtf_parts"}):
@@ -1295,7 +1461,19 @@ def r12_5(ctx: Ctx) -> None:
             it = g.iter
             while isinstance(it, ast.Call) and dotted(it.func) == "enumerate" and it.args:
                 it = it.args[0]
-            rng = const_expr(pm, fi.module, resolve(it, fi.node))
+            it = resolve(it, fi.node)
+            if isinstance(it, ast.Call) and dotted(it.func) == "zip" and isinstance(g.target, (ast.Tuple, ast.List)):
+                # the id is one component of a zip: take the sequence zipped at the position of the variable used after \f
+                used = None
+                for i, v in enumerate(n.elt.values):
+                    if isinstance(v, ast.Constant) and isinstance(v.value, str) and v.value.endswith("\\f") and i + 1 < len(n.elt.values) \
+                            and isinstance(n.elt.values[i + 1], ast.FormattedValue) and isinstance(n.elt.values[i + 1].value, ast.Name):
+                        used = n.elt.values[i + 1].value.id
+                pos = next((k for k, t in enumerate(g.target.elts) if isinstance(t, ast.Name) and t.id == used), None)
+                if pos is None or pos >= len(it.args):
+                    continue
+                it = resolve(it.args[pos], fi.node)
+            rng = const_expr(pm, fi.module, it)
             if rng is not NOC:
                 try:
                     ids = [int(x) for x in rng]
